@@ -30,6 +30,26 @@ type KOp struct {
 	ENil  bool    `json:"end_nil,omitempty"`
 	Rev   bool    `json:"rev,omitempty"`
 	Stop  int     `json:"stop,omitempty"` // consume only this many items (0 = all), then Close
+	// Rep > 1 (batch): a BULK batch - the drawn operations are staged Rep times in a row (the values of the r-th round
+	// get the byte r appended), i.e. hundreds to thousands of operations in which every key occurs many times
+	Rep int `json:"rep,omitempty"`
+}
+
+// batchOps: the operations a batch step stages, in order
+func (op KOp) batchOps() []KOp {
+	if op.Rep <= 1 {
+		return op.Batch
+	}
+	out := make([]KOp, 0, len(op.Batch)*op.Rep)
+	for r := 0; r < op.Rep; r++ {
+		for _, o := range op.Batch {
+			if o.Kind == "set" && !o.NilV {
+				o.V = append(append([]byte{}, o.V...), byte(r))
+			}
+			out = append(out, o)
+		}
+	}
+	return out
 }
 
 type C18Case struct {
@@ -112,7 +132,8 @@ func genC18(t *rapid.T) C18Case {
 			if rapid.IntRange(0, 14).Draw(t, "bulk") == 0 {
 				// a bulk batch (what a commit or an import hands to the store): hundreds to thousands of operations over the
 				// small key universe, so that most keys are written and deleted many times inside ONE batch
-				bn = rapid.SampledFrom([]int{70, 300, 600, 1500}).Draw(t, "bulkn")
+				bn = rapid.IntRange(3, 12).Draw(t, "bulkPattern")
+				op.Rep = rapid.SampledFrom([]int{8, 40, 80, 200}).Draw(t, "bulkRep")
 			}
 			for j := 0; j < bn; j++ {
 				if rapid.IntRange(0, 2).Draw(t, "bdel") == 0 {
@@ -318,7 +339,7 @@ func runC18(c C18Case) (v *Violation, st map[string]bool) {
 			staged := map[string]*[]byte{}
 			var order []string
 			wantRes := ""
-			for _, o := range op.Batch {
+			for _, o := range op.batchOps() {
 				val := o.V
 				if o.Kind == "set" && !o.NilV && val == nil {
 					val = []byte{}
@@ -345,7 +366,7 @@ func runC18(c C18Case) (v *Violation, st map[string]bool) {
 			r, x := all(what, func(b *kvBackend) string {
 				bt := b.db.NewBatch()
 				res := ""
-				for _, o := range op.Batch {
+				for _, o := range op.batchOps() {
 					val := o.V
 					if o.Kind == "set" && !o.NilV && val == nil {
 						val = []byte{}
@@ -389,7 +410,7 @@ func runC18(c C18Case) (v *Violation, st map[string]bool) {
 					}
 				}
 				st["batch_written"] = true
-				if len(op.Batch) >= 64 {
+				if len(op.batchOps()) >= 64 {
 					st["bulk_batch_written"] = true
 				}
 			}
